@@ -1,5 +1,8 @@
 //! modes for the numeric-parameter sites of C14 (Safety area): each mode feeds parameters straight into the
-//! public entry point that uses them and reports value / error / panic.  Model counterparts: Safety/RunNum.v.
+//! public entry point that uses them and reports value / error / panic.  Model counterparts (Safety/RunNum.v) exist for
+//! the sites of this area: num_ps, num_diff, num_fnload, num_tree.  The modes of sites owned by other areas — num_objstm,
+//! num_widths, num_crypt, num_pages, num_xref (and num_fax, num_fnapply) — are judged spec-only ("a value or an error");
+//! the models of those sites and their correspondence live in the owning areas (objstm, widths, crypt_open, page_query, xr_stream).
 use crate::util::*;
 use crate::R;
 use pdf::object::{Object, NoResolve, Function, PsFunc, ObjectStream, ParseOptions, Resolve};
